@@ -707,14 +707,14 @@ pub fn run_sequential(prop: &str, runs: u64, seed: u64, backend: &str, first: u6
     }
     for idx in first..first + runs {
         let tyname = type_name(job_type(idx));
-        if cfg!(miri) && (tyname == "Fixed" || tyname == "FixedE") {
+        if cfg!(miri) && (tyname == "Fixed" || tyname == "FixedE" || tyname == "Entries") {
             continue;
         }
         for sc in seeded_job(prop, backend, seed, idx) {
             // sized structs/enums are emplaced with `ptr.write(value)`, which leaves their padding
             // bytes uninitialised; the harness reads frames byte-wise, so under Miri those two
             // zoo types are left out (see DESIGN §10)
-            if cfg!(miri) && (sc.type_name == "Fixed" || sc.type_name == "FixedE") {
+            if cfg!(miri) && (sc.type_name == "Fixed" || sc.type_name == "FixedE" || sc.type_name == "Entries") {
                 continue;
             }
             let out = run_scenario(&sc, false);
